@@ -18,10 +18,10 @@ CHECK = {
     "entries": [
         {"fn": P + "vC26_roundtrip", "cover_optional": ("with-parent", "no-parent"),
          "cases_quick": {"sysLen": [1, 2], "nameLen": [2], "parentLen": [0, 2], "hostLen": [1, 3], "portDigits": [1, 5]},
-         "cases_thorough": {"sysLen": [1, 2, 3], "nameLen": [1, 2, 3], "parentLen": [0, 1, 2], "hostLen": [1, 2, 3, 4], "portDigits": [1, 2, 3, 4, 5]}},
+         "cases_thorough": {"sysLen": [1, 3], "nameLen": [1, 3], "parentLen": [0, 1, 2], "hostLen": [1, 2, 4], "portDigits": [1, 3, 5]}},
         {"fn": P + "vC26_roundtrip_ipv6", "cover_optional": ("with-parent", "no-parent"),
          "cases_quick": {"sysLen": [1], "nameLen": [2], "parentLen": [0, 1], "hostLen": [3, 4], "portDigits": [2, 5]},
-         "cases_thorough": {"sysLen": [1, 2], "nameLen": [1, 2], "parentLen": [0, 1, 2], "hostLen": [2, 3, 4, 5], "portDigits": [1, 2, 3, 4, 5]}},
+         "cases_thorough": {"sysLen": [1, 2], "nameLen": [1, 2], "parentLen": [0, 2], "hostLen": [2, 3, 5], "portDigits": [1, 5]}},
         {"fn": P + "vC26_parse_any", "cover_optional": ("parsed",)},
         # the receiving side (actor/remote_server.go deliverRemoteTellMessage): the receiver is looked up by the address parsed from the
         # wire string and the sender PID is rebuilt from it: the C18 scenario (unknown / stopped / running receiver, with and without sender)
@@ -29,7 +29,7 @@ CHECK = {
     ],
     "opts": {"unwind": 16, "itoa_digits": 5},
     "explanation": "Address.buildString/String/HostPort/Equals, Parse, HostPortOf and strconvx.ParseInt32 (strconv.ParseInt from its real SSA) executed symbolically on symbolic-length strings; the validity predicate is a transcription of Validate's regexp and of the hostname / IPv6-literal character classes; Parse is also run on an arbitrary 14-byte string with every implicit panic an obligation.",
-    "bounds": {"case split": "string lengths and port digit count are enumerated concretely per job (contents symbolic)", "system,name,parent": "1..2 (quick) / 1..3 (thorough) bytes", "host": "hostname/IPv4 class 1..4 bytes; IPv6 class (>= 2 colons) 2..5 bytes", "port": "0..65535", "arbitrary input": "<= 14 bytes"},
+    "bounds": {"case split": "string lengths and port digit count are enumerated concretely per job (contents symbolic)", "system,name,parent": "1..2 bytes (quick) / lengths {1,3} for system and name, 0..2 for parent (thorough)", "host": "hostname/IPv4 class 1..4 bytes; IPv6 class (>= 2 colons) 2..5 bytes (lengths enumerated per tier in the spec)", "port": "0..65535", "arbitrary input": "<= 14 bytes"},
     "assumptions": ["strings.Index/Cut/Contains/HasPrefix, strings.Builder, strconv.AppendInt are library models (validated by selftest)", "regexp/net resolver of Validate are not executed; validity predicate transcribed in the harness"],
 }
 CHECK["explanation"] += " Receiving side: actorSystem.deliverRemoteTellMessage (address.Parse of the wire receiver/sender, tree lookup, newRemoteSenderPID, dead-lettering) is executed through the C18 scenario vC18_remote (concrete canonical wire strings; receiver unknown / stopped / running)."
